@@ -30,6 +30,8 @@ def run(chk):
                     # the graph object has a past: it was percolated with the same number of edges in other places, then edited
                     other = next(m for m in itertools.chain(range(mask + 1, 1 << len(pairs)), range(mask)) if bin(m).count("1") == len(E))
                     case["pre_E"] = [[f(pairs[i][0]), f(pairs[i][1])] for i in range(len(pairs)) if other >> i & 1]
+                elif len(E) >= 2 and (mask + a) % 4 == 1:
+                    case["pre_abort"] = [0.15, 0.4, 0.65, 0.9][(mask // 4) % 4]      # a percolation of this graph was abandoned part-way before
                 traces.append(P.run_perc(case))
     for M in range(1, 9 if thorough else 7):                     # stars: (N*S - 1)/M ~ Binomial(M, phi)/M
         for a, b in PHIS:
@@ -43,6 +45,9 @@ def run(chk):
             traces.append(P.run_perc(case))
     chk.exhaustive["the whole aligned RNG tree for every graph on <= 4 vertices (isolated vertices allowed) and stars with <= 6 leaves, phi in {0,1/3,1/2,3/4,1}"] = \
         all(t["exhaustive"] for t in traces if not t["raised"])
+    from .. import crash
+    crash.mc(chk)
+    chk.extra["percolations_judged_after_an_abandoned_percolation_of_the_same_graph"] = sum(1 for t in traces if t["case"].get("pre_abort") is not None)
     und = [t for t in traces if t.get("undecided")]
     if und:
         chk.not_decided.append("retention law: RNG tree of bond_percolate not enumerable (%s)" % und[0]["undecided"])
